@@ -166,7 +166,7 @@ def runHist {α : Type} (desc : FieldDesc) (F : FOps α) (uSpec bSpec : String) 
   let ord := (parseOrder (bParts.getD 1 "lex.1")).getD ⟨.lex, true⟩
   let vx := unhex (bParts.getD 2 "58"); let vy := unhex (bParts.getD 3 "59")
   let bBase : BPoly.Ring α := { F := F, ord := ord, varNames := (vx, vy), ideal := none }
-  let bGensS := bParts.getD 4 "-"
+  let bGensS := if bParts.length > 4 then ":".intercalate (bParts.drop 4) else "-"
   let bIdeal : Option (Option (List (BPoly α))) :=
     if bGensS == "-" then some none
     else match (bGensS.splitOn ";").mapM (decB env0) with
@@ -185,7 +185,7 @@ def runHist {α : Type} (desc : FieldDesc) (F : FOps α) (uSpec bSpec : String) 
       (st', outs ++ [if snap then r ++ " ## " ++ snapshot env st' else r])) (({} : St α), [])
     let final := ops.foldl (fun st line => (step env desc st (parseOp line)).1) ({} : St α)
     " | ".intercalate outs ++ (if snap then "" else " ## " ++ snapshot env final)
-  | _, _ => "bad-ring-spec"
+  | _, _ => "fuel-exhausted (ring specification: ideal computation gave up or malformed generators)"
 
 def runHistLine (toks : List String) (rest : String) : String :=
   match toks with
